@@ -286,6 +286,11 @@ def fwd_to_default_without_truth(*args, **kwargs): return default_without_truth(
 import unittest.mock
 mock_instance = unittest.mock.Mock()
 def fwd_to_mock(*args, **kwargs): return mock_instance(*args, **kwargs)
+def po_and_kwargs(a, /, **kwargs): return a, kwargs
+partial_kw_named_like_posonly = functools.partial(po_and_kwargs, a=5)
+partial_kw_named_like_consumed_posonly = functools.partial(po_and_kwargs, 1, a=5)
+def only_stars(*args, **kwargs): return args, kwargs
+partial_kw_named_like_star = functools.partial(only_stars, args=5)
 class FalsyCallable:
     def __len__(self): return 0
     def __call__(self, a: int, b: str = 's') -> bool: return True
@@ -573,6 +578,10 @@ def classify(tid, clause, case):
     # known finding: provenance maps are dictionaries keyed by the callable, which an unhashable callable instance cannot be
     if clause == 'C07_RaisesWhereInspectSucceeds' and case.get('unhashable') and case.get('excs') == ['TypeError']:
         return 'unhashable-callable-instance'
+    # known finding: a partial object's keyword spelled like a positional-only or star parameter lands in **kwargs; the result would need two
+    # parameters of one name
+    if clause == 'C07_RaisesWhereInspectSucceeds' and case.get('excs') == ['ValueError'] and str(case.get('name', '')).startswith('adv.partial_kw_named_like_'):
+        return 'partial-keyword-named-like-positional-only-or-star-parameter'
     return clause
 
 
